@@ -140,9 +140,124 @@ fn apply_step(s: &mut Sys, c: &str, step: &Value, salt: u64) -> bool {
     send(s, c, &sender, &step["msg"], step["funds"].as_bool().unwrap_or(false), salt)
 }
 
+// ---------------------------------------------------------------- farm- and position-level edges (contract "obj")
+struct ObjWorld {
+    s: Sys,
+    lp1: String,
+    lp2: String,
+}
+fn obj_role(w: &ObjWorld, r: &str) -> Addr {
+    match r {
+        "o" => w.s.users[0].clone(),
+        "fo" => w.s.users[1].clone(),
+        "po" => w.s.users[2].clone(),
+        "x" => w.s.users[3].clone(),
+        "pmc" => w.s.pool.clone(),
+        _ => w.s.stranger.clone(),
+    }
+}
+fn obj_fresh() -> ObjWorld {
+    let mut s = Sys::new(SysCfg::default());
+    let o = s.users[0].clone();
+    for (id, a, b) in [("a", "uusdc", "uusdt"), ("b", "uom", "uusd")] {
+        s.exec_pm(&o, &pm::ExecuteMsg::CreatePool { asset_denoms: vec![a.into(), b.into()], asset_decimals: vec![6, 6], pool_fees: crate::drivers::farm::zero_fees(),
+            pool_type: pm::PoolType::ConstantProduct, pool_identifier: Some(id.into()) }, &[coin(8888, "uom"), coin(1000, "uusd")]).unwrap();
+        for ui in 0..4 {
+            let u = s.users[ui].clone();
+            let mut f = vec![coin(10_000_000, a), coin(10_000_000, b)];
+            f.sort_by(|x, y| x.denom.cmp(&y.denom));
+            s.exec_pm(&u, &pm::ExecuteMsg::ProvideLiquidity { liquidity_max_slippage: None, swap_max_slippage: None, receiver: None, pool_identifier: format!("o.{id}"),
+                unlocking_duration: None, lock_position_identifier: None }, &f).unwrap();
+        }
+    }
+    let (lp1, lp2) = (s.lp_denom("o.a"), s.lp_denom("o.b"));
+    let fo = s.users[1].clone();
+    let po = s.users[2].clone();
+    let fa = s.farm.clone();
+    // the farm pays on lp2, the position is on lp1: the position never has pending rewards
+    s.exec(&fo, &fa, &fm::ExecuteMsg::ManageFarm { action: fm::FarmAction::Create { params: fm::FarmParams { lp_denom: lp2.clone(), start_epoch: Some(1), preliminary_end_epoch: Some(5),
+        curve: None, farm_asset: coin(8000, "uweth"), farm_identifier: Some("f".into()) } } }, &[coin(1000, "uom"), coin(8000, "uweth")]).unwrap();
+    s.exec(&po, &fa, &fm::ExecuteMsg::ManagePosition { action: fm::PositionAction::Create { identifier: Some("t".into()), unlocking_duration: DAY, receiver: None } }, &[coin(5000, lp1.clone())]).unwrap();
+    ObjWorld { s, lp1, lp2 }
+}
+fn obj_state(w: &ObjWorld) -> Value {
+    let farm = w.s.q_farms().iter().any(|f| f.identifier == "m-f");
+    let pos = match w.s.q_positions().into_iter().find(|p| p.identifier == "u-t") {
+        None => "gone",
+        Some(p) if p.open => "open",
+        Some(p) => if p.expiring_at.map(|t| t <= w.s.now()).unwrap_or(false) { "unlocked" } else { "closed" },
+    };
+    json!({"farm": farm, "pos": pos})
+}
+fn obj_apply(w: &mut ObjWorld, step: &Value) -> bool {
+    let m = step["m"].as_str().unwrap();
+    if m == "tick" {
+        w.s.advance(2 * DAY);
+        return true;
+    }
+    let sender = obj_role(w, step["sender"].as_str().unwrap());
+    let fa = w.s.farm.clone();
+    let po = w.s.users[2].to_string();
+    let (msg, funds): (fm::ExecuteMsg, Vec<Coin>) = match m {
+        "farm_expand" => (fm::ExecuteMsg::ManageFarm { action: fm::FarmAction::Expand { params: fm::FarmParams { lp_denom: w.lp2.clone(), start_epoch: None, preliminary_end_epoch: None,
+            curve: None, farm_asset: coin(2000, "uweth"), farm_identifier: Some("m-f".into()) } } }, vec![coin(2000, "uweth")]),
+        "farm_close" => (fm::ExecuteMsg::ManageFarm { action: fm::FarmAction::Close { farm_identifier: "m-f".into() } }, vec![]),
+        "pos_create_for_po" => (fm::ExecuteMsg::ManagePosition { action: fm::PositionAction::Create { identifier: None, unlocking_duration: DAY, receiver: Some(po) } }, vec![coin(1, w.lp1.clone())]),
+        "pos_expand" => (fm::ExecuteMsg::ManagePosition { action: fm::PositionAction::Expand { identifier: "u-t".into() } }, vec![coin(1, w.lp1.clone())]),
+        "pos_close" => (fm::ExecuteMsg::ManagePosition { action: fm::PositionAction::Close { identifier: "u-t".into(), lp_asset: None } }, vec![]),
+        "pos_withdraw" => (fm::ExecuteMsg::ManagePosition { action: fm::PositionAction::Withdraw { identifier: "u-t".into(), emergency_unlock: None } }, vec![]),
+        _ => (fm::ExecuteMsg::ManagePosition { action: fm::PositionAction::Withdraw { identifier: "u-t".into(), emergency_unlock: Some(true) } }, vec![]),
+    };
+    w.s.exec(&sender, &fa, &msg, &funds).is_ok()
+}
+fn run_obj(edges: &[Value], t: &mut Tracer) {
+    let key = |v: &Value| format!("{}|{}", v["farm"], v["pos"]);
+    let mut by_src: BTreeMap<String, Vec<usize>> = BTreeMap::new();
+    for (i, e) in edges.iter().enumerate() {
+        by_src.entry(key(&e["src"])).or_default().push(i);
+    }
+    let mut path_to: HashMap<String, Vec<usize>> = HashMap::new();
+    let mut queue = VecDeque::new();
+    let k0 = key(&json!({"farm": true, "pos": "open"}));
+    path_to.insert(k0.clone(), vec![]);
+    queue.push_back(k0);
+    while let Some(k) = queue.pop_front() {
+        let p = path_to[&k].clone();
+        for &i in by_src.get(&k).map(|v| v.as_slice()).unwrap_or(&[]) {
+            let k2 = key(&edges[i]["dst"]);
+            if k2 != k && !path_to.contains_key(&k2) {
+                let mut p2 = p.clone();
+                p2.push(i);
+                path_to.insert(k2.clone(), p2);
+                queue.push_back(k2);
+            }
+        }
+    }
+    for (k, idxs) in &by_src {
+        for &i in idxs {
+            let e = &edges[i];
+            let mut w = obj_fresh();
+            let mut reached = true;
+            for &j in path_to.get(k).map(|v| v.as_slice()).unwrap_or(&[]) {
+                if !obj_apply(&mut w, &edges[j]["step"]) { reached = false; break; }
+            }
+            if !reached { t.emit("auth_unreachable", json!({"c": "obj", "src": e["src"]})); continue; }
+            let src_obs = obj_state(&w);
+            let d0 = w.s.digest();
+            let ok = obj_apply(&mut w, &e["step"]);
+            let d1 = w.s.digest();
+            let obs = obj_state(&w);
+            t.emit("auth_obj_edge", json!({"src": e["src"], "sender": e["step"]["sender"], "m": e["step"]["m"], "tick": e["step"]["m"] == "tick",
+                "src_obs": src_obs, "ok": ok, "obs": obs, "digest_same": d0 == d1}));
+        }
+    }
+}
+
 pub fn run(path: &str, t: &mut Tracer) {
     let text = std::fs::read_to_string(path).expect("edges file");
-    let edges: Vec<Value> = text.lines().filter_map(|l| serde_json::from_str(l).ok()).collect();
+    let all_edges: Vec<Value> = text.lines().filter_map(|l| serde_json::from_str(l).ok()).collect();
+    let obj_edges: Vec<Value> = all_edges.iter().filter(|e| e["c"] == "obj").cloned().collect();
+    let edges: Vec<Value> = all_edges.into_iter().filter(|e| e["c"] != "obj").collect();
     // shortest paths of accepted edges from the initial state of each contract to every source state
     let mut by_src: BTreeMap<String, Vec<usize>> = BTreeMap::new();
     for (i, e) in edges.iter().enumerate() {
@@ -168,7 +283,8 @@ pub fn run(path: &str, t: &mut Tracer) {
             }
         }
     }
-    t.reset("auth_edges", json!({"edges": edges.len()}));
+    t.reset("auth_edges", json!({"edges": edges.len(), "obj_edges": obj_edges.len()}));
+    run_obj(&obj_edges, t);
     let build = |k: &str, path_to: &HashMap<String, Vec<usize>>| -> Option<Sys> {
         let mut s = fresh();
         for (n, &i) in path_to.get(k)?.iter().enumerate() {
